@@ -33,9 +33,18 @@ def run_config(ctx, cfg):
 
 
 class State:
-    def __init__(self):
+    """Training state as a periodic callback may see it.  Whether a stop has been requested is a free choice
+    (both explored when an exploration is active): the schedule must not depend on it."""
+
+    def __init__(self, stop=None):
         object.__setattr__(self, "writes", [])
         object.__setattr__(self, "saved", [])
+        if stop is None:
+            try:
+                stop = VC.cur().fork("stop-requested")
+            except Exception:
+                stop = False
+        object.__setattr__(self, "stop_training", stop)
 
     def __setattr__(self, k, v):
         self.writes.append(k)
